@@ -28,6 +28,10 @@ def extract():
             elif v == "ServerError" and rhs in ("*code", "code.clone()"): pass   # carries its own code
             else: raise ExtractError(f"to_error_code arm {v} => {rhs}")
     if not table: raise ExtractError("to_error_code: no arms")
+    # a guarded arm (`RepeError::Io(e) if … =>`) or a variant listed twice makes the mapping depend on more than the
+    # variant: not a table any more
+    if re.search(r"\bif\b", body) or len({v for v, _ in table}) != len(table):
+        table.append(("_guarded_or_repeated_arm", 0))
     sr = test_mod_cut(strip(read("src/server_request.rs")))
     rb = fn_body(sr, "route")
     # a check that is not found is simply absent from `routeOrder` (the order theorem then fails); a version test
@@ -280,6 +284,11 @@ def serve_facts(sr):
         f["wsOffSendWaits"] = bool(mm and re.fullmatch(r"(?:let _\w* = |_ = )?outbound_tx\.blocking_send\(response\)(?:\.ok\(\))?;", mm.group(1)))
     else:
         f["wsOffRunsAlways"] = f["wsStampOff"] = f["wsOffSendWaits"] = False
+    # (s) timers, sleeps, timeouts and retry arms inside the loops the property depends on: counted; any that is not
+    # there today changes the fact (read pessimistically: `source_facts` no longer holds)
+    timer = r"\b(?:timeout|timeout_at|sleep|sleep_until|interval|Instant::now|set_read_timeout|set_write_timeout|recv_timeout|wait_timeout|elapsed|retry|retries|Duration::from_\w+)\b"
+    f["timerArms"] = [len(re.findall(timer, x)) for x in (fn_body(srv, "handle_connection"), fn_body(asv, "handle_connection"), rt, fn_body(ws, "writer_task"), so,
+                                                             fn_body(sr, "route") + fn_body(sr, "route_request_view") + fn_body(sr, "dispatch_view") + fn_body(sr, "dispatch"))]
     # saturated cap: the branch must leave the function (a notify is dropped, a request is answered), never fall through
     nso = norm(so)
     f["wsSaturationReturns"] = bool(re.search(r"try_acquire_owned\(\) \{ Ok\(permit\) => Some\(permit\), Err\(_\) => \{ (?:[^{}]|\{[^{}]*\})*? if notify \{ return true; \} let response = create_error_response_like\( &request, ErrorCode::ResourceExhausted, [^;]*\); return conn\.outbound_tx\.send\(response\)\.await\.is_ok\(\); \} \}, None => None, \};", nso))
@@ -330,6 +339,7 @@ def render(f):
     order = ["viewNotifySilent", "ownedNotifySilent", "viewRejectNotifySilent", "wsRejectNotifySilent", "viewHandlerCalls", "ownedHandlerCalls",
              "tcpEchoHelper", "atcpEchoHelper", "wsStampInline", "wsStampOff", "wsOffRunsAlways", "tcpFlushEach", "atcpFlushEach", "wsSendInOrder", "wsDrainOnExit", "wsOffSendWaits", "wsSaturationReturns", "structSegmentsKept"]
     L.append("def serveFacts : ServeFacts :=\n  { " + "\n    ".join(f"{k} := {sv[k] if isinstance(sv[k], int) and not isinstance(sv[k], bool) else b(sv[k])}" for k in order) + " }")
+    L.append(f"def timerArms : List Nat := {f['serve']['timerArms']}")
     L.append("end Repe.Gen")
     return "\n".join(L) + "\n"
 
